@@ -72,7 +72,7 @@ def run(ctx):
         if os.environ.get("VERIF_C14_NOMC"):      # development knob (mutation self-tests): skip the exhaustive run
             f_mc = ex.submit(lambda: None)
         else:
-            f_mc = ex.submit(model_check, ctx, SPEC, "MC_Attachments", "MC_Attachments.cfg" if quick else "MC_Attachments_thorough.cfg", 5400)
+            f_mc = ex.submit(exhaustive, ctx, quick)
         f_beh = ex.submit(gen_behaviours, ctx, "Beh_Attachments.cfg", None, "Beh")
         f_sim = ex.submit(gen_behaviours, ctx, "Sim_Attachments.cfg", nsim, "Sim")
         mc, beh_all, beh_sim = f_mc.result(), f_beh.result(), f_sim.result()
@@ -81,8 +81,8 @@ def run(ctx):
     beh_all.sort(key=lambda b: json.dumps(b, sort_keys=True))
     if len(beh_all) > nbeh:
         beh_all = rnd.sample(beh_all, nbeh)
-    for i, b in enumerate(beh_sim):        # a quarter of the simulated histories run with revs_limit 3 (pruning)
-        if i % 4 == 3:
+    for i, b in enumerate(beh_sim):        # about a quarter of the simulated histories run with revs_limit 3 (pruning)
+        if i % 3 == 2 and prune_safe(b):
             b["conf"]["lim"] = 3
     ctx.cov["behaviour_action_mix"] = action_mix(beh_sim)
     behs, seen = [], set()
@@ -103,6 +103,27 @@ def run(ctx):
         "the eccv=true variant requires LeafSafe / Intact only",
         "data left behind by a REFUSED write (C11 finding F9) is tracked as residue and not counted against Collected",
         "legacy (v1 / pre-2.5) attachments, attachment compaction and the BLIP allow-list are not covered by this check (see NOTES.md)"]
+
+
+def exhaustive(ctx, quick):
+    """quick: 2 documents, 2 names, 2 contents, 3 steps (thin shapes); thorough: additionally 2 documents, 1 name, 4 steps (all shapes)."""
+    r = model_check(ctx, SPEC, "MC_Attachments", "MC_Attachments.cfg", 5400)
+    if not quick:
+        model_check(ctx, SPEC, "MC_Attachments", "MC_Attachments_thorough.cfg", 5400)
+    return r
+
+
+def prune_safe(b):
+    """the model does not prune: revs_limit 3 is only applied to histories in which every write goes on a leaf (a parent deeper
+    in the tree could have been pruned away, and the gateway would then add the pushed revision as a new root)."""
+    has_child = set()
+    for st in b["steps"]:
+        if st["a"] in ("W", "B") and st["p"]:
+            if st["p"] in has_child:
+                return False
+        if st["a"] in ("W", "E") and st["p"]:
+            has_child.add(st["p"])
+    return True
 
 
 def gen_behaviours(ctx, cfg, num, tag):
